@@ -1,11 +1,194 @@
 import GrinVerif.Drv.Common
-/-! Driver glue for the `nrd` domain (stub; the domain's owner fills it in). -/
+import GrinVerif.Model.NrdIndex
+/-! Driver glue for the `nrd` domain (property C13, clause "relative locks on every fork"): folds
+the model of the NRD recent-kernel index (`Model/NrdIndex.lean`, a transliteration of
+chain/src/linked_list.rs and its callers in txhashset.rs) *and* the per-excess list specification
+over the op lines of `harness/src/bin/nrd.rs`.
+
+Batches: `nrd new` starts a fresh store; `begin` opens a top-level batch on the committed store,
+`child` a nested one, `commit` / `rollback` close the innermost.  Every other op works on the
+innermost open batch.
+
+Ops on the real `MultiIndex<CommitPos>`: `push e pos height`, `pop e`, `popback e`, `rewind e pos`,
+`prune e cutoff` (`unimplemented!()` in the Rust: `panic`), `pruneback e cutoff` (the harness's loop
+over the real `pop_pos_back`), `clear`; `block-apply height prevSize size [e:rel:pos,…]` /
+`block-rewind …` (the loops of `apply_kernels`+`apply_kernel_rules` / `rewind_single_block`; run
+`ops`: transliterated in the harness over the real primitives; run `chain`: what the real
+`Chain::process_block` did, reconstructed from the head movement).
+
+Observations: `peek e`, `list e` (walk from the head along `next`), `back e` (walk from the tail
+along `prev`) are values the property fixes — the occurrences of the excess on this fork, most
+recent first — and are compared with the specification state (`cmpSpec`), then with the model;
+`wrapper e` and `raw` (every record of both key spaces, stale ones included) are internal
+(`cmpModel`).  Results of operations are compared with the specification's result first, then
+with the model's. -/
 namespace GV.Drv.NrdD
-open GV GV.Drv
+open GV GV.Drv GV.Nrd
+
+abbrev Ex := String
+
+structure Layer where
+  kv : KV Ex := {}
+  sp : Spec Ex := fun _ => []
 
 structure St where
-  dummy : Nat := 0
+  committed : Layer := {}
+  stack : List Layer := []
 
-def handle (st : St) (_args : List String) (_impl : String) : St × Verdict := (st, .unknown)
+instance : Inhabited St := ⟨{}⟩
+
+def showCP (p : CommitPos) : String := s!"{p.pos}:{p.height}"
+
+def showOptCP : Option CommitPos → String
+  | none => "none"
+  | some p => showCP p
+
+def showCPList (l : List CommitPos) : String := "[" ++ ",".intercalate (l.map showCP) ++ "]"
+
+def showRes {α : Type} (f : α → String) : Except Err α → String
+  | .ok a => f a
+  | .error e => if e == .panicUnimplemented then "panic" else "err:" ++ e.name
+
+def showWrapper : Option ListWrapper → String
+  | none => "none"
+  | some (.single p) => s!"S({showCP p})"
+  | some (.multi h t) => s!"M({h},{t})"
+
+def showEntry : ListEntry → String
+  | .head p n => s!"H({showCP p},{n})"
+  | .tail p v => s!"T({showCP p},{v})"
+  | .middle p n v => s!"M({showCP p},{n},{v})"
+
+def showRaw (kv : KV Ex) : String :=
+  let ls := kv.lists.mergeSort (fun a b => decide (a.1 ≤ b.1))
+  let es := kv.entries.mergeSort (fun a b => decide (a.1.1 < b.1.1) || (a.1.1 == b.1.1 && decide (a.1.2 ≤ b.1.2)))
+  "K{" ++ ";".intercalate (ls.map fun (e, w) => s!"{e}={showWrapper (some w)}") ++ "} k{" ++
+    ";".intercalate (es.map fun ((e, p), en) => s!"{e}@{p}={showEntry en}") ++ "}"
+
+/-- `abs` with the walk capped at 10000 steps (as the harness caps its walk over the real store) -/
+def absShow (kv : KV Ex) (e : Ex) : List CommitPos :=
+  match kv.getList e with
+  | none => []
+  | some (.single pos) => [pos]
+  | some (.multi head _) => walkFrom kv e (min (head + 1) 10000) head
+
+/-- `e:rel:pos` (`rel` = `-` for a kernel that is not NRD) -/
+def parseKernel (s : String) : Option (Kernel Ex × Nat) :=
+  match s.splitOn ":" with
+  | [e, r, p] =>
+    match nat? p with
+    | none => none
+    | some pos =>
+      if r = "-" then some (⟨e, none⟩, pos)
+      else (nat? r).map fun rel => (⟨e, some rel⟩, pos)
+  | _ => none
+
+def parseKernels (s : String) : Option (List (Kernel Ex × Nat)) :=
+  let inner := (s.drop 1).dropEnd 1 |>.toString
+  if inner.isEmpty then some [] else (inner.splitOn ",").mapM parseKernel
+
+/-- spec answer first (a deviation from it is a failing input), then the model's -/
+def verdict2 (spec model impl : String) : Verdict :=
+  if spec ≠ impl then .fail spec else if model ≠ impl then .diff model else .ok
+
+def unitStr (_ : Unit) : String := "ok"
+
+/-- replace the innermost open batch -/
+def setTop (st : St) (l : Layer) : St :=
+  match st.stack with
+  | [] => st
+  | _ :: r => { st with stack := l :: r }
+
+def handle (st : St) (args : List String) (impl : String) : St × Verdict :=
+  match args with
+  | ["new"] => ({}, cmpModel "ok" impl)
+  | ["begin"] =>
+    match st.stack with
+    | [] => ({ st with stack := [st.committed] }, cmpModel "ok" impl)
+    | _ => (st, .unknown)
+  | ["child"] =>
+    match st.stack with
+    | [] => (st, .unknown)
+    | t :: r => ({ st with stack := t :: t :: r }, cmpModel "ok" impl)
+  | ["commit"] =>
+    match st.stack with
+    | [] => (st, .unknown)
+    | [t] => ({ committed := t, stack := [] }, cmpSpec "ok" impl)
+    | t :: _ :: r => ({ st with stack := t :: r }, cmpSpec "ok" impl)
+  | ["rollback"] =>
+    match st.stack with
+    | [] => (st, .unknown)
+    | _ :: r => ({ st with stack := r }, cmpSpec "ok" impl)
+  | _ =>
+  match st.stack with
+  | [] => (st, .unknown)
+  | top :: _ =>
+  let kv := top.kv
+  let sp := top.sp
+  match args with
+  | ["push", e, p, h] =>
+    match nat? p, nat? h with
+    | some p, some h =>
+      let o := pushPos kv e ⟨p, h⟩
+      let s := sPush sp e ⟨p, h⟩
+      (setTop st ⟨o.kv, s.st⟩, verdict2 (showRes unitStr s.res) (showRes unitStr o.res) impl)
+    | _, _ => (st, .unknown)
+  | ["pop", e] =>
+    let o := popPos kv e
+    let s := sPop sp e
+    (setTop st ⟨o.kv, s.st⟩, verdict2 (showRes showOptCP s.res) (showRes showOptCP o.res) impl)
+  | ["popback", e] =>
+    let o := popPosBack kv e
+    let s := sPopBack sp e
+    (setTop st ⟨o.kv, s.st⟩, verdict2 (showRes showOptCP s.res) (showRes showOptCP o.res) impl)
+  | ["rewind", e, r] =>
+    match nat? r with
+    | some r =>
+      let o := rewind kv e r
+      let s := sRewind sp e r
+      (setTop st ⟨o.kv, s.st⟩, verdict2 (showRes unitStr s.res) (showRes unitStr o.res) impl)
+    | none => (st, .unknown)
+  | ["pruneback", e, c] =>
+    match nat? c with
+    | some c =>
+      let o := pruneBack kv e c
+      let s := sPruneBack sp e c
+      (setTop st ⟨o.kv, s.st⟩, verdict2 (showRes unitStr s.res) (showRes unitStr o.res) impl)
+    | none => (st, .unknown)
+  | ["prune", e, c] =>
+    match nat? c with
+    | some c =>
+      let o := prune kv e c
+      (setTop st ⟨o.kv, sp⟩, cmpModel (showRes unitStr o.res) impl)
+    | none => (st, .unknown)
+  | ["clear"] =>
+    let o := clear kv
+    let s := sClear sp
+    (setTop st ⟨o.kv, s.st⟩, verdict2 (showRes unitStr s.res) (showRes unitStr o.res) impl)
+  | ["block-apply", h, ps, sz, ks] =>
+    match nat? h, nat? ps, nat? sz, parseKernels ks with
+    | some h, some ps, some sz, some ks =>
+      let b : Blk Ex := ⟨h, ps, sz, ks⟩
+      let o := applyBlock kv b
+      let s := sApplyBlock sp b
+      (setTop st ⟨o.kv, s.st⟩, verdict2 (showRes unitStr s.res) (showRes unitStr o.res) impl)
+    | _, _, _, _ => (st, .unknown)
+  | ["block-rewind", h, ps, sz, ks] =>
+    match nat? h, nat? ps, nat? sz, parseKernels ks with
+    | some h, some ps, some sz, some ks =>
+      let b : Blk Ex := ⟨h, ps, sz, ks⟩
+      let o := rewindSingleBlock kv b
+      let s := sRewindSingleBlock sp b
+      (setTop st ⟨o.kv, s⟩, verdict2 "ok" (showRes unitStr o.res) impl)
+    | _, _, _, _ => (st, .unknown)
+  | ["peek", e] =>
+    (st, verdict2 (showOptCP (sPeek sp e)) (showRes showOptCP (peekPos kv e)) impl)
+  | ["list", e] =>
+    (st, verdict2 (showCPList (sp e)) (showCPList (absShow kv e)) impl)
+  | ["back", e] =>
+    (st, verdict2 (showCPList (sp e).reverse) (showCPList (absBack kv e 10000)) impl)
+  | ["wrapper", e] => (st, cmpModel (showWrapper (kv.getList e)) impl)
+  | ["raw"] => (st, cmpModel (showRaw kv) impl)
+  | _ => (st, .unknown)
 
 end GV.Drv.NrdD
